@@ -38,6 +38,20 @@ type Case struct {
 	// entries (as another producer might have written them: directory entries, zero-length parts, unknown parts),
 	// opened with OpenFromMemory, and the ops are applied to the opened document.
 	Extra []Extra `json:"extra,omitempty"`
+	// Stages is the save history of the SAME document object before the judged final save and the fault enumeration:
+	// stage i saves the object to a path (judged like every save), then applies its edits. The final save therefore sees
+	// an object that was saved before and has changed since (parts added, body grown or shrunk).
+	Stages []Stage `json:"stages,omitempty"`
+	// NoBefore: no ToBytes call between the last edit and the final save (the file is compared with ToBytes taken right after).
+	NoBefore bool `json:"nobefore,omitempty"`
+}
+
+// Stage is one earlier save of the same object followed by edits.
+type Stage struct {
+	Path     string   `json:"path"`               // main: the path of the final save (when that is a plain file path) | prev: the path of the previous stage | new: a path not used before | newdir: a new path in new directories
+	Fault    int      `json:"fault,omitempty"`    // 0: no injected fault; k>0: this save runs with a write fault at (k-1) permille of the package size and is then repeated without a fault on the same path
+	NoBefore bool     `json:"nobefore,omitempty"` // no ToBytes call before this save (compared with ToBytes taken right after only); ignored for a fault stage
+	Ops      []ops.Op `json:"ops,omitempty"`      // edits applied after this save (shared op kinds plus the local kinds c05big, c05rmlast, c05rmnote)
 }
 
 type Extra struct {
@@ -100,6 +114,51 @@ func weights() map[string]int {
 	return w
 }
 
+// stageCfg: the edits between two saves of one object. Weighted towards calls that create a package part the object
+// did not have at the previous save (header/footer parts, footnotes/endnotes, settings, media, numbering, docProps,
+// styles) next to calls that grow or shrink the main part.
+var stageCfg = &ops.Config{Classes: gen.AllClasses, Weights: map[string]int{
+	"header": 3, "footer": 3, "headerpn": 1, "footerpn": 1, "fheader": 1, "ffooter": 1, "difffirst": 1,
+	"footnote": 3, "endnote": 3, "notecfg": 2,
+	"image": 3, "imagefile": 1, "table": 2, "cellimg": 1,
+	"listitem": 2, "bullet": 1, "numbered": 1,
+	"props": 2, "title": 1, "author": 1, "stats": 1,
+	"customstyle": 1, "tblstyle": 1, "pagesize": 1,
+	"para": 2, "heading": 1, "addtext": 1,
+	"rmpara": 1, "rmparaat": 1, "rmelemat": 2,
+}}
+
+// genStageOp draws one edit between two saves.
+func genStageOp(t *rapid.T) ops.Op {
+	switch rapid.IntRange(0, 19).Draw(t, "stagek") {
+	case 0, 1: // a large paragraph (4-48 KB of poorly compressible text): the package grows by several KB
+		return ops.Op{K: "c05big", I: []int{rapid.IntRange(4, 48).Draw(t, "bigkb"), rapid.IntRange(0, 999).Draw(t, "bigpat")}}
+	case 2, 3, 4: // drop the last body element: the package shrinks
+		return ops.Op{K: "c05rmlast"}
+	case 5:
+		return ops.Op{K: "c05rmnote", S: []string{rapid.SampledFrom([]string{"footnote", "endnote"}).Draw(t, "rmnk"), fmt.Sprint(rapid.IntRange(1, 4).Draw(t, "rmnid"))}}
+	}
+	return stageCfg.Op(t)
+}
+
+func genStages(t *rapid.T) []Stage {
+	n := rapid.SampledFrom([]int{0, 0, 1, 1, 1, 2, 2, 3, 4}).Draw(t, "nstages")
+	var out []Stage
+	for i := 0; i < n; i++ {
+		st := Stage{Path: rapid.SampledFrom([]string{"main", "main", "main", "prev", "new", "new", "newdir"}).Draw(t, "spath")}
+		if rapid.IntRange(0, 3).Draw(t, "sfault") == 0 {
+			st.Fault = 1 + rapid.IntRange(0, 999).Draw(t, "sfaultpm")
+		}
+		st.NoBefore = rapid.Bool().Draw(t, "snobefore")
+		k := rapid.IntRange(0, 4).Draw(t, "snops")
+		for j := 0; j < k; j++ {
+			st.Ops = append(st.Ops, genStageOp(t))
+		}
+		out = append(out, st)
+	}
+	return out
+}
+
 func genCase(t *rapid.T) Case {
 	c := Case{Ops: cfg.History(t, 0, 12)}
 	switch rapid.IntRange(0, 3).Draw(t, "band") {
@@ -123,6 +182,8 @@ func genCase(t *rapid.T) Case {
 			c.Extra = append(c.Extra, e)
 		}
 	}
+	c.Stages = genStages(t)
+	c.NoBefore = rapid.Bool().Draw(t, "nobefore")
 	return c
 }
 
@@ -162,6 +223,142 @@ func sameParts(a, b map[string]string) string {
 var (
 	faultPoints, closeOnly, writeFaults, controls int
 )
+
+// trailing returns the number of bytes of a file that follow the end of the zip package (the end-of-central-directory
+// record including its comment): a complete package written by Save ends the file. -1: no end record found.
+func trailing(b []byte) int {
+	for p := len(b) - 22; p >= 0 && p >= len(b)-22-65535; p-- {
+		if b[p] == 'P' && b[p+1] == 'K' && b[p+2] == 5 && b[p+3] == 6 {
+			end := p + 22 + int(b[p+20]) + int(b[p+21])<<8
+			if end <= len(b) {
+				return len(b) - end
+			}
+		}
+	}
+	return -1
+}
+
+// bigText gives kb*1024 characters of deterministic, poorly compressible text.
+func bigText(kb, pat int) string {
+	const alpha = "abcdefghijklmnopqrstuvwxyzABCDEFGHIJKLMNOPQRSTUVWXYZ0123456789 ."
+	v := uint32(pat)*2654435761 + 12345
+	b := make([]byte, kb*1024)
+	for i := range b {
+		v ^= v << 13
+		v ^= v >> 17
+		v ^= v << 5
+		b[i] = alpha[v&63]
+	}
+	return string(b)
+}
+
+// doOp executes one edit: the local kinds here, everything else through the shared interpreter.
+func doOp(x *ops.Exec, op ops.Op) {
+	d := x.Doc
+	switch op.K {
+	case "c05big":
+		kb, pat := 8, 0
+		if len(op.I) > 1 {
+			kb, pat = op.I[0], op.I[1]
+		}
+		if kb < 1 || kb > 256 {
+			kb = 8
+		}
+		x.Paras = append(x.Paras, d.AddParagraph(bigText(kb, pat)))
+	case "c05rmlast":
+		if n := len(d.Body.Elements); n > 0 {
+			d.RemoveElementAt(n - 1)
+			x.Paras = d.Body.GetParagraphs()
+			x.Tables = d.Body.GetTables()
+		}
+	case "c05rmnote":
+		if len(op.S) > 1 {
+			if op.S[0] == "endnote" {
+				d.RemoveEndnote(op.S[1])
+			} else {
+				d.RemoveFootnote(op.S[1])
+			}
+		}
+	default:
+		x.Do(op)
+	}
+}
+
+// judgedSave is one Save without an injected fault, judged by F3 (nil) and F1 (the file is a complete package - nothing
+// follows its end record - whose part map equals the part map of ToBytes taken immediately before and after).
+// It returns the file size and the part map; ok=false when the case cannot go on.
+func judgedSave(res *kit.Result, doc *document.Document, path, what string, noBefore bool) (L int64, want map[string]string, ok bool) {
+	// noBefore: ToBytes is NOT called before this Save (a ToBytes call refreshes the serialised parts the object keeps,
+	// which would hide a Save that relies on them); the file is then compared with ToBytes taken right after only.
+	if !noBefore {
+		before, err := doc.ToBytes()
+		if err != nil {
+			res.Label("tobytes-error")
+			return 0, nil, false
+		}
+		want, err = partMap(before)
+		if err != nil {
+			res.Label("tobytes-unreadable") // C01's business
+			return 0, nil, false
+		}
+	} else {
+		what += ", no ToBytes call before it"
+		res.Label("oracle:tobytes-after-only")
+	}
+	serr, pan := saveWithLimit(doc, path, -1)
+	controls++
+	if pan != nil {
+		res.Fail("C05.F0", "%s: Save panicked: %v", what, pan)
+		return 0, nil, false
+	}
+	res.Eval("C05.F3")
+	if serr != nil {
+		res.Fail("C05.F3", "%s: Save without any fault returned %v", what, serr)
+		return 0, nil, false
+	}
+	fb, _ := os.ReadFile(path)
+	after, err := doc.ToBytes()
+	if err != nil {
+		if want == nil {
+			res.Label("tobytes-error")
+			return 0, nil, false
+		}
+		after = nil
+	}
+	var am map[string]string
+	if after != nil {
+		if am, err = partMap(after); err != nil {
+			if want == nil {
+				res.Label("tobytes-unreadable")
+				return 0, nil, false
+			}
+			am = nil
+		}
+	}
+	res.Eval("C05.F1")
+	good := true
+	ref, when := want, "before"
+	if ref == nil {
+		ref, when = am, "right after"
+	}
+	if got, err := partMap(fb); err != nil {
+		res.Fail("C05.F1", "%s: Save returned nil but the file is not a readable package: %v", what, err)
+		good = false
+	} else if d := sameParts(ref, got); d != "" {
+		res.Fail("C05.F1", "%s: Save returned nil but the file differs from ToBytes taken %s: %s", what, when, d)
+		good = false
+	} else if tr := trailing(fb); tr != 0 {
+		res.Fail("C05.F1", "%s: Save returned nil but the file is not just the package: %d bytes follow its end record (-1: no end record at the end of the file)", what, tr)
+		good = false
+	}
+	if want != nil && am != nil {
+		if d := sameParts(want, am); d != "" {
+			res.Fail("C05.F1", "%s: ToBytes before and after Save disagree: %s", what, d)
+			good = false
+		}
+	}
+	return int64(len(fb)), ref, good
+}
 
 // saveWithLimit runs Save with the soft RLIMIT_FSIZE set to n (n<0: no limit).
 func saveWithLimit(doc *document.Document, path string, n int64) (err error, panicked interface{}) {
@@ -223,7 +420,7 @@ func run(c Case) *kit.Result {
 		res.Label("source:new")
 	}
 	for _, op := range c.Ops {
-		if p, _ := kit.Try(func() { x.Do(op) }); p != nil {
+		if p, _ := kit.Try(func() { doOp(x, op) }); p != nil {
 			res.Label("build-panicked")
 			return res // C01/C09 report panics of the build ops; here the document is just an input
 		}
@@ -233,24 +430,12 @@ func run(c Case) *kit.Result {
 		x.Doc.AddImageFromData(im.Bytes(), im.Name, document.ImageFormatPNG, im.W, im.H, nil)
 	}
 	doc := x.Doc
-	before, err := doc.ToBytes()
-	if err != nil {
-		res.Label("tobytes-error")
-		return res
-	}
-	want, err := partMap(before)
-	if err != nil {
-		res.Label("tobytes-unreadable") // C01's business
-		return res
-	}
-	// F3 + control: unrestricted save to the requested kind of target
+	// the target of the final save
 	path := filepath.Join(dir, "out.docx")
 	expectErr := false
 	switch c.Target {
 	case "nested":
 		path = filepath.Join(dir, "n1", "n 2", "名", "out.docx")
-	case "existing":
-		os.WriteFile(path, []byte(strings.Repeat("old content ", 20000)), 0o644)
 	case "devfull":
 		path = "/dev/full"
 		expectErr = true
@@ -264,13 +449,122 @@ func run(c Case) *kit.Result {
 		expectErr = true
 	}
 	res.Label("target:" + c.Target)
-	serr, pan := saveWithLimit(doc, path, -1)
-	controls++
-	if pan != nil {
-		res.Fail("C05.F0", "Save panicked: %v", pan)
-		return res
+
+	// the save history of this object before the final save
+	mainPath := filepath.Join(dir, "out.docx")
+	prevPath := mainPath
+	sizeAt := map[string]int64{}    // path -> size of the file the last successful save left there
+	var lastNames map[string]string // part map of the last successful save
+	noteSave := func(p string, L int64, want map[string]string) {
+		if old, ok := sizeAt[p]; ok {
+			res.Label("history:same-path-again")
+			if L < old {
+				res.Label("history:smaller-file-over-larger")
+			}
+		}
+		sizeAt[p] = L
+		if lastNames != nil {
+			for k := range want {
+				if _, ok := lastNames[k]; !ok {
+					res.Label("history:parts-added-between-saves")
+					break
+				}
+			}
+		}
+		lastNames = want
+	}
+	if len(c.Stages) == 0 {
+		res.Label("history:first-save")
+	} else {
+		res.Label("history:multi-save")
+	}
+	for i, st := range c.Stages {
+		sp := mainPath
+		switch st.Path {
+		case "prev":
+			sp = prevPath
+		case "new":
+			sp = filepath.Join(dir, fmt.Sprintf("s%d.docx", i))
+		case "newdir":
+			sp = filepath.Join(dir, fmt.Sprintf("d%d", i), "sub dir", "s.docx")
+		}
+		prevPath = sp
+		what := fmt.Sprintf("save %d of the same object (%s path)", i+1, st.Path)
+		if st.Fault > 0 {
+			// a save that hits a write fault, then the same save again without the fault (same path)
+			res.Label("history:fault-on-earlier-save")
+			before, err := doc.ToBytes()
+			if err != nil {
+				res.Label("tobytes-error")
+				return res
+			}
+			want, err := partMap(before)
+			if err != nil {
+				res.Label("tobytes-unreadable")
+				return res
+			}
+			N := int64(len(before)) * int64(st.Fault-1) / 1000
+			ferr, pan := saveWithLimit(doc, sp, N)
+			faultPoints++
+			if pan != nil {
+				res.Fail("C05.F0", "%s: Save panicked with a write fault at offset %d: %v", what, N, pan)
+				return res
+			}
+			faulty, _ := os.ReadFile(sp)
+			L, w2, ok := judgedSave(res, doc, sp, what+", repeated after the faulty attempt", false)
+			if !ok {
+				return res
+			}
+			res.Eval("C05.F2")
+			switch {
+			case ferr == nil && N < L:
+				res.Fail("C05.F2", "%s: write fault at byte offset %d of %d: Save returned nil (file on disk had %d bytes)", what, N, L, len(faulty))
+				return res
+			case ferr == nil:
+				// the limit was not below the file size: an ordinary successful save
+				if got, err := partMap(faulty); err != nil {
+					res.Fail("C05.F1", "%s (limit %d >= size %d): Save returned nil but the file is not a readable package: %v", what, N, L, err)
+					return res
+				} else if d := sameParts(want, got); d != "" {
+					res.Fail("C05.F1", "%s (limit %d >= size %d): Save returned nil but the file differs from ToBytes taken before: %s", what, N, L, d)
+					return res
+				}
+			case N >= L:
+				res.Fail("C05.F3", "%s: Save with a size limit of %d >= file size %d failed: %v", what, N, L, ferr)
+				return res
+			default:
+				if strings.Contains(ferr.Error(), "close") || strings.Contains(ferr.Error(), "关闭") {
+					closeOnly++
+				} else {
+					writeFaults++
+				}
+			}
+			noteSave(sp, L, w2)
+		} else {
+			L, want, ok := judgedSave(res, doc, sp, what, st.NoBefore)
+			if !ok {
+				return res
+			}
+			noteSave(sp, L, want)
+		}
+		for _, op := range st.Ops {
+			if p, _ := kit.Try(func() { doOp(x, op) }); p != nil {
+				res.Label("build-panicked")
+				return res
+			}
+		}
+	}
+
+	if c.Target == "existing" {
+		os.WriteFile(path, []byte(strings.Repeat("old content ", 20000)), 0o644)
 	}
 	if expectErr {
+		serr, pan := saveWithLimit(doc, path, -1)
+		controls++
+		if pan != nil {
+			res.Fail("C05.F0", "Save panicked: %v", pan)
+			return res
+		}
 		res.Eval("C05.F2")
 		if serr == nil {
 			res.Fail("C05.F2", "Save to %s target %q returned nil although the target cannot hold the file", c.Target, path)
@@ -279,42 +573,36 @@ func run(c Case) *kit.Result {
 			return res
 		}
 		path = filepath.Join(dir, "out.docx")
-		if serr, pan = saveWithLimit(doc, path, -1); pan != nil || serr != nil {
-			res.Fail("C05.F3", "plain Save failed: %v %v", serr, pan)
-			return res
-		}
-	} else {
-		res.Eval("C05.F3")
-		if serr != nil {
-			res.Fail("C05.F3", "Save without any fault returned %v", serr)
-			return res
-		}
 	}
-	fb, _ := os.ReadFile(path)
-	L := int64(len(fb))
-	res.Eval("C05.F1")
-	if got, err := partMap(fb); err != nil {
-		res.Fail("C05.F1", "Save returned nil but the file is not a readable package: %v", err)
-	} else if d := sameParts(want, got); d != "" {
-		res.Fail("C05.F1", "Save returned nil but the file differs from ToBytes taken before: %s", d)
+	L, want, ok := judgedSave(res, doc, path, "final save", c.NoBefore)
+	if !ok {
+		return res
 	}
-	after, err := doc.ToBytes()
-	if err == nil {
-		if am, e := partMap(after); e == nil {
-			if d := sameParts(want, am); d != "" {
-				res.Fail("C05.F1", "ToBytes before and after Save disagree: %s", d)
-			}
-		}
-	}
+	noteSave(path, L, want)
 	// fault points
 	var offs []int64
 	if L <= 16384 {
-		step := int64(1)
-		if kit.Tier != "thorough" && L > 6000 {
-			step = 3
+		// thorough: every offset. quick: every offset of the first 32 and the last 1024 bytes (last entries, central
+		// directory, end record - where a fault is seen only by the closing calls), the middle with a stride that keeps
+		// it to about 300 points (stride 1 up to L ~ 1350, at most 51 at 16 KB).
+		step, head, tail := int64(1), int64(0), L
+		if kit.Tier != "thorough" {
+			head, tail = 32, L-1024
+			step = (tail - head + 299) / 300
+			if step < 1 {
+				step = 1
+			}
 		}
-		for n := int64(0); n < L; n += step {
+		for n := int64(0); n < L; {
 			offs = append(offs, n)
+			if n < head || n >= tail {
+				n++
+			} else {
+				n += step
+				if n > tail {
+					n = tail
+				}
+			}
 		}
 		offs = append(offs, L-1)
 		res.Label("enumeration:exhaustive")
@@ -403,15 +691,16 @@ func run(c Case) *kit.Result {
 		}
 	}
 	res.Nontrivial = len(offs) > 2
-	res.Shape = fmt.Sprintf("%s|%s|ops=%d|L/512=%d", band, c.Target, len(c.Ops), L/512)
+	res.Shape = fmt.Sprintf("%s|%s|ops=%d|L/512=%d|earlier-saves=%d", band, c.Target, len(c.Ops), L/512, len(c.Stages))
 	return res
 }
 
 func TestC05(t *testing.T) {
 	kit.Main(t, kit.Spec[Case]{
 		ID: "C05", Level: "fault_enumeration",
-		Rule: "per generated document (0-12 API ops on a new document or, in one case of three, on a document opened from a library-written package extended with 1-5 foreign zip entries - directory entries, zero-length parts, unknown parts; optionally a large incompressible image: three size bands) one unrestricted Save (L = file size) and one Save per fault point with the soft RLIMIT_FSIZE set to N: every N in [0,L) when L<=16384 (quick: every 3rd above 6000), else 0,1,L-2,L-1, every multiple of a 4096*2^k stride +-1 and 8-40 drawn offsets; controls N in {L, L+1, L+4096}; targets: plain, nested new directories, existing larger file, /dev/full, parent is a regular file, path is a directory. A case is non-trivial when it has >2 fault points with 0<=N<L; distinct = (size band, target kind, op count, L/512).",
+		Rule: "per generated document (0-12 API ops on a new document or, in one case of three, on a document opened from a library-written package extended with 1-5 foreign zip entries - directory entries, zero-length parts, unknown parts; optionally a large incompressible image: three size bands) one unrestricted Save (L = file size) and one Save per fault point with the soft RLIMIT_FSIZE set to N: every N in [0,L) when L<=16384 (quick: every N of the first 32 and last 1024 bytes, about 300 evenly spaced ones between), else 0,1,L-2,L-1, every multiple of a 4096*2^k stride +-1 and 8-40 drawn offsets; controls N in {L, L+1, L+4096}; targets: plain, nested new directories, existing larger file, /dev/full, parent is a regular file, path is a directory. Save history: in about 3 of 4 cases the SAME object was saved 1-4 times before the final save (to the final path, the previous path, a fresh path or fresh directories; one stage in four first hits a write fault at a drawn offset and is then repeated on the same path), each earlier save followed by 0-4 edits drawn mostly from the calls that create package parts (headers/footers of all kinds, footnotes/endnotes, note settings, pictures, lists, document properties, custom/table styles) plus body growth (incl. 4-48 KB paragraphs) and shrinkage (remove paragraph/element/last element, remove note); every save of the history is judged like the final one. A case is non-trivial when it has >2 fault points with 0<=N<L; distinct = (size band, target kind, op count, L/512).",
 		Gen:  genCase, Run: run, Findings: findings, CaseLimit: 120e9,
+		MustSee: map[string]float64{"history:multi-save": 0.3, "history:parts-added-between-saves": 0.15, "history:same-path-again": 0.15, "history:first-save": 0.1},
 		Fixed: func() []Case {
 			para := ops.Op{K: "para", S: []string{"hello"}}
 			return []Case{
@@ -421,10 +710,23 @@ func TestC05(t *testing.T) {
 				{Ops: []ops.Op{para}, Blob: 200, Target: "nested", Sample: []int{1, 250, 777}},
 				{Ops: []ops.Op{para}, Target: "parent-is-file"},
 				{Ops: []ops.Op{para}, Target: "plain", Extra: []Extra{{Name: "word/"}, {Name: "customXml/"}, {Name: "customXml/item1.xml"}, {Name: "extra.dat", Data: "x"}}},
+				// one object saved several times: parts appear between the saves (same path, other paths), a faulty save in between
+				{Ops: []ops.Op{para}, Target: "plain", Stages: []Stage{
+					{Path: "main", Ops: []ops.Op{{K: "header", I: []int{0}, S: []string{"head"}}, {K: "footnote", S: []string{"t", "note"}}}},
+					{Path: "new", Fault: 501, Ops: []ops.Op{{K: "footer", I: []int{1}, S: []string{"foot"}}, {K: "listitem", S: []string{"item"}, I: []int{1, 0, 1, 0}}, {K: "props", S: []string{"T", "S", "C", "K", "D", "en", "cat", "1", "2"}}}},
+					{Path: "prev", NoBefore: true, Ops: []ops.Op{{K: "endnote", S: []string{"t", "end"}}, {K: "notecfg", I: []int{1, 1}}, {K: "image", Img: &gen.Img{Fmt: "png", W: 9, H: 7, Pat: 5, Name: "p.png"}, I: []int{0, 0, 0, 0}, F: []float64{10, 10}, S: []string{"", "", ""}}}},
+				}},
+				// grow, save, shrink, save to the same path: the second file is shorter than the one it replaces
+				{Ops: []ops.Op{para, {K: "c05big", I: []int{40, 7}}}, Target: "plain", NoBefore: true, Stages: []Stage{
+					{Path: "main", Ops: []ops.Op{{K: "c05rmlast"}}},
+					{Path: "main", NoBefore: true, Ops: []ops.Op{{K: "c05big", I: []int{1, 3}}, {K: "c05rmlast"}, {K: "c05rmlast"}}},
+				}},
 			}
 		},
 		Assumptions: []string{"write failures are modelled as 'the N-th byte of the output file cannot be written' (EFBIG through RLIMIT_FSIZE, ENOSPC through /dev/full); media errors on already written bytes and fsync failures are out of scope (the library never syncs)",
-			"zip entry order is map-iteration order and is not compared; parts are compared as a name->bytes map"},
+			"zip entry order is map-iteration order and is not compared; parts are compared as a name->bytes map",
+			"a complete package ends the file: bytes after the end-of-central-directory record (leftovers of a longer file that was at the path) make a file unfaithful even when a lenient zip reader still finds the parts",
+			"after a Save that returned an error nothing is demanded of the target file; the object must still save faithfully afterwards"},
 		Extra: func() map[string]interface{} {
 			return map[string]interface{}{"fault_points": faultPoints, "faults_surfacing_at_close": closeOnly, "faults_surfacing_in_write": writeFaults, "no_fault_controls": controls}
 		},
